@@ -279,6 +279,16 @@ pub fn run(thorough: bool, seed: u64, driver: &str, rep: &mut Report) {
             rep,
         );
     }
+    // ---- the generators as the command-line tool calls them (the UNGUARDED binary, thread_rng()): `phylotree generate` with every
+    // shape, distribution, -b and the several-trees form -n K -o DIR — the same oracles, on the text the tool writes ----
+    if std::env::var("PVH_CLI").is_ok() {
+        let dir = std::env::temp_dir().join(format!("pvh-c17-{}", std::process::id()));
+        let _ = std::fs::create_dir_all(&dir);
+        crate::c18::generate_stream(&dir.to_string_lossy(), &mut rng, if thorough { 180 } else { 36 }, rep);
+        let _ = std::fs::remove_dir_all(&dir);
+    } else {
+        rep.notes.push("PVH_CLI is not set: the `phylotree generate` stream was not run".into());
+    }
     match run_driver(driver, &reqs) {
         Err(e) => rep.mismatch("c17.generators", "driver-failed", "", "", &e),
         Ok(ans) => {
